@@ -1,8 +1,10 @@
 """Native bounded back end: build the scratch copy with --cfg verif_native on the repository toolchain and run
 the exhaustive small-scope enumerator of one obligation against the natively compiled real code."""
+import fcntl
 import json
 import os
 import re
+import shutil
 
 from common import NATIVE_TARGET, Undecided, env_offline, run
 
@@ -23,6 +25,19 @@ def build(scratch, package, log):
     """Compile the lib test binary of `package` in the scratch copy; returns its path."""
     cmd = ["cargo", "test", "--offline", "-p", package, "--lib", "--no-run", "--message-format=json"]
     log("native build: " + " ".join(cmd))
+    # cargo names the test binary after the package only, so two checks building different scratch copies into the
+    # shared target directory overwrite each other's binary: build and take a private copy under one lock
+    os.makedirs(NATIVE_TARGET, exist_ok=True)
+    lock = open(os.path.join(NATIVE_TARGET, ".verif-build.lock"), "w")
+    fcntl.flock(lock, fcntl.LOCK_EX)
+    try:
+        return _build_locked(scratch, package, cmd, log)
+    finally:
+        fcntl.flock(lock, fcntl.LOCK_UN)
+        lock.close()
+
+
+def _build_locked(scratch, package, cmd, log):
     rc, out, secs, to = run(cmd, cwd=scratch.path, env=_env(), timeout=1800)
     exe = None
     errors = []
@@ -41,8 +56,10 @@ def build(scratch, package, log):
             errors.append(m["message"].get("rendered", "")[:600])
     if rc != 0 or not exe:
         raise Undecided("scratch copy does not compile natively with the contracts injected:\n" + "\n".join(errors[:5]) + out[-800:])
-    log(f"native build of {package}: {secs:.1f}s -> {exe}")
-    return exe
+    private = os.path.join(scratch.base, f"native-{package}.bin")
+    shutil.copy2(exe, private)
+    log(f"native build of {package}: {secs:.1f}s -> {exe} (private copy {private})")
+    return private
 
 
 def run_obligation(scratch, exe, test, tier, jobs, timeout_s, log, replay=None, max_cases=None, progress=False):
